@@ -33,6 +33,7 @@ func c17(c *Ctx) {
 	cdb := store.NewChainDataBase(dir)
 	defer cdb.Close()
 	c17Trie(c, cdb)
+	c17Store(c)
 	c17TrieOracle(c, cdb)
 }
 
